@@ -14,44 +14,45 @@ Section WalkId.
   Proof. destruct v; try reflexivity. discriminate. Qed.
 
   Section Loops.
-    Variable rec : sel -> dm -> list dm -> res xerr (dm * list dm).
-    Hypothesis Hrec : forall sn v log r, link_free v = true -> rec sn v log = Ok r -> fst r = v.
+    Variable rec : sel -> path -> dm -> list (path * dm) -> res xerr (dm * list (path * dm)).
+    Hypothesis Hrec : forall sn pth v log r, link_free v = true -> rec sn pth v log = Ok r -> fst r = v.
+    Variable here : path.
     Variable s : sel.
     Variable attn : option (list pseg).
 
     Lemma wt_list_id : forall l i log x,
-      forallb link_free l = true -> wt_list sq st rec s attn i l log = Ok x -> fst x = l.
+      forallb link_free l = true -> wt_list sq st rec here s attn i l log = Ok x -> fst x = l.
     Proof.
       induction l as [|v r IH]; intros i log x Hl; simpl.
       - intro E; inversion E; reflexivity.
       - simpl in Hl. apply andb_true_iff in Hl as [Hv Hr].
-        assert (Hcopy : forall lg, (do y <- wt_list sq st rec s attn (i + 1) r lg; Ok (v :: fst y, snd y)) = Ok x -> fst x = v :: r).
-        { intros lg. destruct (wt_list sq st rec s attn (i + 1) r lg) as [y|e] eqn:EL; [|discriminate].
+        assert (Hcopy : forall lg, (do y <- wt_list sq st rec here s attn (i + 1) r lg; Ok (v :: fst y, snd y)) = Ok x -> fst x = v :: r).
+        { intros lg. destruct (wt_list sq st rec here s attn (i + 1) r lg) as [y|e] eqn:EL; [|discriminate].
           cbn. intro E; inversion E; subst. cbn. f_equal. eapply IH; eassumption. }
         destruct (attends attn (PI i)); [|apply Hcopy].
         destruct (explore sq s true (PI i)) as [[sn|]|e]; cbn; [| apply Hcopy | discriminate].
         rewrite (load_child_link_free v Hv). cbn.
-        destruct (rec sn v log) as [x0|e] eqn:ER; [|discriminate]. cbn.
-        destruct (wt_list sq st rec s attn (i + 1) r (snd x0)) as [y|e] eqn:EL; [|discriminate].
+        match goal with |- context [rec ?a ?b ?c ?d] => destruct (rec a b c d) as [x0|e] eqn:ER end; [|discriminate]. cbn.
+        destruct (wt_list sq st rec here s attn (i + 1) r (snd x0)) as [y|e] eqn:EL; [|discriminate].
         cbn. intro E; inversion E; subst. cbn. f_equal.
         + eapply Hrec; eassumption.
         + eapply IH; eassumption.
     Qed.
 
     Lemma wt_map_id : forall m log x,
-      forallb (fun kv => link_free (snd kv)) m = true -> wt_map sq st rec s attn m log = Ok x -> fst x = m.
+      forallb (fun kv => link_free (snd kv)) m = true -> wt_map sq st rec here s attn m log = Ok x -> fst x = m.
     Proof.
       induction m as [|[k v] r IH]; intros log x Hl; simpl.
       - intro E; inversion E; reflexivity.
       - simpl in Hl. apply andb_true_iff in Hl as [Hv Hr].
-        assert (Hcopy : forall lg, (do y <- wt_map sq st rec s attn r lg; Ok ((k, v) :: fst y, snd y)) = Ok x -> fst x = (k, v) :: r).
-        { intros lg. destruct (wt_map sq st rec s attn r lg) as [y|e] eqn:EL; [|discriminate].
+        assert (Hcopy : forall lg, (do y <- wt_map sq st rec here s attn r lg; Ok ((k, v) :: fst y, snd y)) = Ok x -> fst x = (k, v) :: r).
+        { intros lg. destruct (wt_map sq st rec here s attn r lg) as [y|e] eqn:EL; [|discriminate].
           cbn. intro E; inversion E; subst. cbn. f_equal. eapply IH; eassumption. }
         destruct (attends attn (PK k)); [|apply Hcopy].
         destruct (explore sq s false (PK k)) as [[sn|]|e]; cbn; [| apply Hcopy | discriminate].
         rewrite (load_child_link_free v Hv). cbn.
-        destruct (rec sn v log) as [x0|e] eqn:ER; [|discriminate]. cbn.
-        destruct (wt_map sq st rec s attn r (snd x0)) as [y|e] eqn:EL; [|discriminate].
+        match goal with |- context [rec ?a ?b ?c ?d] => destruct (rec a b c d) as [x0|e] eqn:ER end; [|discriminate]. cbn.
+        destruct (wt_map sq st rec here s attn r (snd x0)) as [y|e] eqn:EL; [|discriminate].
         cbn. intro E; inversion E; subst. cbn. f_equal.
         + f_equal. eapply Hrec; eassumption.
         + eapply IH; eassumption.
@@ -59,16 +60,16 @@ Section WalkId.
   End Loops.
 
   (* An identity walk over a tree without links returns an equal tree, whatever the selector. *)
-  Theorem walk_identity_link_free : forall fuel s n log r,
-    link_free n = true -> wt sq gsame st fuel s n log = Ok r -> fst r = n.
+  Theorem walk_identity_link_free : forall fuel s here n log r,
+    link_free n = true -> wt sq gsame st fuel s here n log = Ok r -> fst r = n.
   Proof.
-    induction fuel as [|fu IH]; intros s n log r Hn; [discriminate|].
+    induction fuel as [|fu IH]; intros s here n log r Hn; [discriminate|].
     cbn [wt]. replace (if decide s then gsame n else None) with (@None dm) by (destruct (decide s); reflexivity).
     destruct n; try (intro E; inversion E; reflexivity).
-    - destruct (wt_list sq st (wt sq gsame st fu) s (interests sq s) 0 l _) as [x|e] eqn:EL; [|discriminate].
+    - destruct (wt_list sq st (wt sq gsame st fu) here s (interests sq s) 0 l _) as [x|e] eqn:EL; [|discriminate].
       cbn. intro E; inversion E; subst. cbn. f_equal.
       eapply wt_list_id; [|exact Hn|exact EL]. intros; eapply IH; eassumption.
-    - destruct (wt_map sq st (wt sq gsame st fu) s (interests sq s) m _) as [x|e] eqn:EL; [|discriminate].
+    - destruct (wt_map sq st (wt sq gsame st fu) here s (interests sq s) m _) as [x|e] eqn:EL; [|discriminate].
       cbn. intro E; inversion E; subst. cbn. f_equal.
       eapply wt_map_id; [|exact Hn|exact EL]. intros; eapply IH; eassumption.
   Qed.
@@ -79,7 +80,7 @@ Definition sel_all : sel := let sq := SUnion [SMatch; SAll SEdge] in SRec sq sq 
 
 (* Across a link the walk returns the loaded block in place of the link: not an equal tree, nothing stored. *)
 Lemma walk_identity_inlines_links : forall sq,
-  exists st root r, wt sq gsame st 20 sel_all root [] = Ok r /\ fst r <> root /\ fst r = inline 5 st root.
+  exists st root r, wt sq gsame st 20 sel_all [] root [] = Ok r /\ fst r <> root /\ fst r = inline 5 st root.
 Proof.
   intros [[|] [|] [|]];
     (exists [([9%N], DList [DInt 1])], (DMap [([97%N], DLink [9%N])]); eexists;
@@ -88,5 +89,5 @@ Qed.
 
 Example walk_identity_satisfiable :
   link_free (DMap [([97%N], DList [DInt 1; DInt 2])]) = true /\
-  exists r, wt sq_new gsame [] 20 sel_all (DMap [([97%N], DList [DInt 1; DInt 2])]) [] = Ok r.
+  exists r, wt sq_new gsame [] 20 sel_all [] (DMap [([97%N], DList [DInt 1; DInt 2])]) [] = Ok r.
 Proof. split; [reflexivity|]. eexists. vm_compute. reflexivity. Qed.
